@@ -19,7 +19,7 @@ INITIALLY_MISSED = {  # seeded changes the checks did not catch when first run a
     "C05-3": "utility exponent a|x| capped at 80 for both dtypes; now up to the dtype's range (84 / 700)",
     "C08-3": "user pricers consumed one spot-like parameter; now also `spot` together with `(log_)moneyness`",
     "C12-1": "clauses were registered under names whose alphabetical order equals the registration order; names now deliberately out of order",
-    "C12-3": "NOT detectable by design (see below): differs from the original only where start/dt is within rounding of an integer",
+    "C12-3": "the oracle accepted either neighbour when start/dt is within rounding of an integer (looser than the statement) because the original tree itself was off by one for some k/250; caught since round 5: the tree was repaired (F18) and the oracle made strict",
     "C06-r2-1": "a|x| capped at 20 for every criterion; the entropic risk measure (closed-form cash) now also gets a|x| up to 3000",
     "C06-r2-3": "price() checked with cash-invariant criteria only; isoelastic and a user power utility (with an endowment clause) added",
     "C03-r2-3": "single steps were always requested in increasing consecutive order; second round now skips forward and comes back",
@@ -36,7 +36,7 @@ INITIALLY_MISSED = {  # seeded changes the checks did not catch when first run a
     "C06-r4-1": "cash() searched only with library criteria; a user criterion (mean-std over dim 0) whose value on one row differs from its value on the sample added",
     "C09-r4-1": "boundary elements were evaluated in homogeneous batches; new differential `price_surface`/`batch_independence`: every element of a mixed batch (boundary + interior points) equals its value computed alone",
     "C10-r4-3": "Vasicek kappa*horizon stayed below ~10; kappa in {20,100,300} (strong mean reversion) added",
-    "C11-r4-1": "NOT covered on purpose: manifests only for a bare scalar `init_state=0.0` passed to generate_cir, outside the documented tuple signature; the generator stays within documented inputs",
+    "C11-r4-1": "initial states were tuples for CIR/Vasicek (their signature) and bare only where the signature says so; first left uncovered on purpose, then - after two more independent seeders used the same form in round 5 - bare scalars / 0-dim / per-path tensors were added for every one-state generator (cast_state documents and accepts them)",
     "C11-r4-2": "same range gap as C10-r4-3 for the finiteness clause: kappa in {50,200,1000} added to the simulator histories",
     "C11-r4-3": "volatility was always positive; sigma=0 (deterministic paths, still n_paths rows) added",
     "C12-r4-3": "clause names were registered once; a clause re-registered under an existing name (replacement) added, expected order/values follow dict semantics",
@@ -55,6 +55,30 @@ INITIALLY_MISSED = {  # seeded changes the checks did not catch when first run a
     "C16-r4-2": "buffers compared by name before/after; tensors held by the caller across a re-simulation must now stay bitwise intact",
     "C16-r4-3": "histories had no caller-side backward; op `backward` leaves stale .grad before fit (fresh reference has none)",
     "C18-r4-1": "boundary elements evaluated in homogeneous batches; `mixed_batches` differential added",
+    "C02-r5-1": "paths had at most 9 steps; contracts with 257/258/300 steps added (`is` on integers above 256) - stepwise branch",
+    "C02-r5-2": "same as C02-r5-1, vectorised branch",
+    "C02-r5-3": "feature table per derivative type was hard-coded; option-family features are now probed on every derivative type at run time and used wherever the library offers them",
+    "C04-r5-1": "samples had at most 64 outcomes; long samples (up to 20000 outcomes, mostly tied values) added: library kernels switch algorithm with size",
+    "C07-r5-2": "functionals were always called with keywords; the documented positional order (a table in the oracle, not read from the code) is now called as well and must agree",
+    "C09-r5-1": "same as C07-r5-2 (positional strike / call of bs_european_price)",
+    "C09-r5-3": "same as C07-r5-2 (positional call of bs_european_binary_price)",
+    "C09-r5-2": "C09 checked functionals only; new sub `modules`: the relations through pricing modules bound to one simulated underlier with a caller-supplied running maximum / volatility / time to maturity (C07 partial arguments now include the running maximum too)",
+    "C10-r5-1": "initial states were scalars; per-path initial states (bare or in a tuple) added to the pathwise oracle",
+    "C10-r5-2": "CIR/Vasicek start values were given in a tuple; bare float / 0-dim tensor forms added",
+    "C11-r5-1": "local volatility functions always depended on the spot; 0-dim (time-only / constant) sigma_fn added",
+    "C11-r5-2": "as C10-r5-2 for the buffer predicates (bare zero start of Vasicek)",
+    "C11-r5-3": "the documented `engine` argument was not drawn; antithetic / Sobol engines with odd and even path counts added (generators and jump instruments)",
+    "C12-r5-1": "same change as C12-3 (see there)",
+    "C12-r5-3": "prices were positive and strikes positive; rate-like paths around zero with zero / negative strikes added for the option payoffs",
+    "C13-r5-1": "derivative.simulate() was called without init_state; the documented second argument (the default state given explicitly) added",
+    "C13-r5-2": "C13 did not look at the forward-start payoff's start point; start = k*dt must use grid point k (and see C12-3)",
+    "C13-r5-3": "the times at which a local-volatility function is asked were not observed; recorded and compared with i*dt",
+    "C15-r5-3": "optimiser instances were only built after the documented placeholder forward; new sub `lazy_instance` (instance built on still-lazy parameters, batch sizes logged)",
+    "C16-r5-2": "no user network working in place on its input; `inplace` model (Hardtanh(inplace=True) first) on a single buffer-view feature added",
+    "C17-r5-1": "register_buffer payloads were floating tensors; int64 / bool payloads added to the op alphabet",
+    "C17-r5-2": "rejected dtypes were int/bool; complex64/complex128 added",
+    "C18-r5-1": "negative arguments were tensor elements; 0-dim tensors and plain Python numbers added",
+    "C18-r5-3": "no underlier with sigma = 0 in the hedger sweep; added (which exposed F19 and K6 on the original tree)",
 }
 
 
